@@ -16,9 +16,7 @@ def _h(hid, defs, cap=400):
 
 
 HARNESSES = [
- dict(_h('c10_p5', {'C10_PROBE': 5}, cap=100), entry='harness_c10_probe'),
- dict(_h('c10_p6', {'C10_PROBE': 6}, cap=100), entry='harness_c10_probe'),
- dict(_h('c10_p7', {'C10_PROBE': 7}, cap=100), entry='harness_c10_probe'),
+ dict(_h('c10_q1', {'C10_PROBE2': 2}, cap=100), entry='harness_c10_probe2'),
 ]
 
 PROPERTY_INFO = {'C10': {'level': 'model_checking', 'explanation': 'x', 'outside': 'x', 'assumptions': []}}
